@@ -1,7 +1,10 @@
 #!/bin/bash
-# try_mutant.sh <mutant id> <check id> [tier]: apply the seeded change to /repo, run the check, undo it
+# try_mutant.sh <mutant id> <check id> [tier]: apply the seeded change to /repo, run the check, undo it.
+# The evidence file of the check is put back afterwards: committed evidence must describe the unchanged tree.
 m=$1; c=$2; tier=${3:-quick}
 git -C /repo apply /verif/seeded/$m/patch.diff || { echo "$m: patch does not apply"; exit 2; }
+cp /verif/evidence/$c.json /tmp/.evidence_$c.json 2>/dev/null
 out=$(cd /verif && timeout 2400 ./check $c --tier $tier 2>&1); rc=$?
 git -C /repo checkout -- .
+[ -f /tmp/.evidence_$c.json ] && mv /tmp/.evidence_$c.json /verif/evidence/$c.json
 echo "mutant=$m check=$c rc=$rc $(echo "$out" | grep -c VIOLATION) violation line(s): $(echo "$out" | grep VIOLATION | head -2 | tr '\n' ' ')"
